@@ -16,6 +16,7 @@ package c06
 
 import (
 	"context"
+	"encoding/json"
 	"fmt"
 	"os"
 	"sort"
@@ -33,6 +34,7 @@ import (
 )
 
 func init() {
+	evid.RegisterReplay("C06", replay)
 	evid.Register(&evid.Check{ID: "C06", Level: "exploration", Run: run, QuickBudget: 150 * time.Second, ThoroughBudget: 14 * time.Minute})
 }
 
@@ -128,8 +130,71 @@ func (e *env) configuredRules(c cfg) ([]string, error) {
 	return ids, nil
 }
 
+// replay re-evaluates one recorded case on the current tree (used by `verif replay <file>`).
+func replay(raw json.RawMessage) (string, bool) {
+	var vc violationCase
+	if err := json.Unmarshal(raw, &vc); err != nil {
+		return "cannot decode the case: " + err.Error(), false
+	}
+	r := evid.NewRun("C06", "quick", "exploration", 5*time.Minute)
+	ctx := context.Background()
+	client, err := bufx.CheckClient()
+	if err != nil {
+		return err.Error(), false
+	}
+	e := &env{r: r, ctx: ctx, client: client, tab: map[string]*tables{}, cnt: &counters{m: map[string]int64{}}}
+	for _, v := range allVersions {
+		for _, kind := range []string{"lint", "breaking"} {
+			t, err := loadTables(ctx, client, v.Name, v.FV, kind)
+			if err != nil {
+				return err.Error(), false
+			}
+			e.tab[v.Name+"/"+kind] = t
+		}
+	}
+	c := vc.Config
+	switch vc.Oracle {
+	case "select":
+		checkSelection(e, e.tables(c.Version, c.Type), c)
+	case "unknown":
+		if _, err := e.configuredRules(c); err == nil {
+			return "corrupted ID still accepted: " + vc.Detail, true
+		}
+		return "corrupted ID rejected: " + vc.Detail, false
+	case "nesting":
+		partANesting(e)
+	case "deprecated":
+		partADeprecated(e)
+	default: // judge, mono: the union-minus oracle on the recorded configuration and comment variant
+		var sc *scene
+		if c.Type == "lint" {
+			var ok bool
+			if c.ModuleDir != "" {
+				sc, ok = e.lintSceneIn(c.ModuleDir, vc.Comments, []string{c.Version}, nil)
+			} else {
+				sc, ok = e.lintScene(vc.Comments, []string{c.Version}, nil)
+			}
+			if !ok {
+				return "fixture does not build", r.ViolationCount() > 0
+			}
+		} else {
+			var ok bool
+			sc, ok = e.breakingScene([]string{c.Version})
+			if !ok {
+				return "fixture does not build", r.ViolationCount() > 0
+			}
+		}
+		e.judge(sc, c, "R")
+	}
+	if r.ViolationCount() > 0 {
+		return "the recorded configuration still disagrees with the reference model", true
+	}
+	return "configuration agrees with the reference model", false
+}
+
 // violationCase is what a replay needs.
 type violationCase struct {
+	Oracle   string            `json:"oracle"` // select | unknown | nesting | deprecated | judge | mono
 	Config   cfg               `json:"config"`
 	YAML     string            `json:"buf_yaml"`
 	Comments []comment         `json:"comments,omitempty"`
@@ -373,7 +438,7 @@ func checkSelection(e *env, t *tables, c cfg) {
 	sel, unknown := t.selection(c.Use, c.Except)
 	got, err := e.configuredRules(c)
 	vc := func(detail string) violationCase {
-		return violationCase{Config: c, YAML: c.yaml(), Expected: sel.sorted(), Observed: got, Detail: detail}
+		return violationCase{Oracle: "select", Config: c, YAML: c.yaml(), Expected: sel.sorted(), Observed: got, Detail: detail}
 	}
 	if len(unknown) > 0 {
 		// cannot happen in part A proper (universe IDs only)
@@ -557,12 +622,12 @@ func partAUnknown(e *env) {
 		}
 		if cerr == nil {
 			r.Violate("unknown-id/"+j.kind+"/"+j.pos+"/accepted-by-ConfiguredRules", "a corrupted rule/category ID was accepted",
-				violationCase{Config: c, YAML: c.yaml(), Detail: j.id})
+				violationCase{Oracle: "unknown", Config: c, YAML: c.yaml(), Detail: j.id})
 			return
 		}
 		if obs.ParseErr == "" && obs.Err == "" {
 			r.Violate("unknown-id/"+j.kind+"/"+j.pos+"/accepted-by-check", "a corrupted rule/category ID was accepted by Lint/Breaking",
-				violationCase{Config: c, YAML: c.yaml(), Detail: j.id})
+				violationCase{Oracle: "unknown", Config: c, YAML: c.yaml(), Detail: j.id})
 			return
 		}
 		e.cnt.add("unknown.rejected", 1)
@@ -580,7 +645,7 @@ func partANesting(e *env) {
 		get := func(cat string) (stringSet, bool) {
 			ids, err := e.configuredRules(cfg{Version: v.Name, Type: "lint", Use: []string{cat}})
 			if err != nil {
-				r.Violate("nesting/"+cat+"/error", "category is not usable: "+err.Error(), violationCase{Config: cfg{Version: v.Name, Type: "lint", Use: []string{cat}}})
+				r.Violate("nesting/"+cat+"/error", "category is not usable: "+err.Error(), violationCase{Oracle: "nesting", Config: cfg{Version: v.Name, Type: "lint", Use: []string{cat}}})
 				return nil, false
 			}
 			s := stringSet{}
@@ -600,7 +665,7 @@ func partANesting(e *env) {
 			for id := range small {
 				if !big[id] {
 					r.Violate("nesting/"+chain[i]+"-not-within-"+chain[i+1], fmt.Sprintf("%s (in %s) is not in %s for %s", id, chain[i], chain[i+1], v.Name),
-						violationCase{Config: cfg{Version: v.Name, Type: "lint", Use: []string{chain[i]}}, Detail: id})
+						violationCase{Oracle: "nesting", Config: cfg{Version: v.Name, Type: "lint", Use: []string{chain[i]}}, Detail: id})
 				}
 			}
 			if len(small) > 0 && len(big) > len(small) {
@@ -658,7 +723,7 @@ func partADeprecated(e *env) {
 					if (ea == nil) != (eb == nil) || strings.Join(ga, ",") != strings.Join(gb, ",") {
 						r.Violate("deprecated/"+kind+"/"+pos+"/differs-from-replacement/"+t.classify(d.id),
 							fmt.Sprintf("%s and its replacements %v give different configured rules", d.id, d.repl),
-							violationCase{Config: a, YAML: a.yaml() + "---\n" + b.yaml(), Expected: gb, Observed: ga})
+							violationCase{Oracle: "deprecated", Config: a, YAML: a.yaml() + "---\n" + b.yaml(), Expected: gb, Observed: ga})
 						return
 					}
 					e.cnt.add("deprecated_equiv.checked", 1)
